@@ -115,6 +115,127 @@ def ob_classical(A, B, X, Y):
                       weight=(min(A ** X, B ** Y)) ** 2)
 
 
+class _InlinePool:
+    """environment stub for multiprocessing.Pool: the documented contract of map/starmap/imap (results of f on every
+    element, in order), evaluated in this process"""
+
+    def __init__(self, *a, **k):
+        pass
+
+    def __enter__(self):
+        return self
+
+    def __exit__(self, *a):
+        return False
+
+    def starmap(self, f, it, chunksize=None):
+        return [f(*x) for x in it]
+
+    def map(self, f, it, chunksize=None):
+        return [f(x) for x in it]
+
+    def imap(self, f, it, chunksize=1):
+        return iter([f(x) for x in it])
+
+    imap_unordered = imap
+
+    def close(self):
+        pass
+
+    join = terminate = close
+
+
+class _InlineMP:
+    Pool = _InlinePool
+
+    @staticmethod
+    def cpu_count():
+        return 1
+
+
+def _solver_max(*a, **k):
+    """builtin max inside nonlocal_game.py as a definitional solver symbol (no forking over 1000+ comparisons)"""
+    from symnp.array import symmax
+    vals = list(a[0]) if len(a) == 1 else list(a)
+    vals = [v for v in vals if not (isinstance(v, float) and v == float("-inf"))]
+    if not vals:
+        return k.get("default", float("-inf"))
+    flat = []
+    for v in vals:       # max(max(a, b), c) = max(a, b, c): a running maximum stays ONE definitional symbol, made at the end
+        flat += v.vals if isinstance(v, _LazyMax) else [v]
+    return _LazyMax(flat)
+
+
+class _LazyMax:
+    def __init__(self, vals):
+        self.vals = vals
+
+    def force(self):
+        from symnp.array import symmax
+        return symmax(self.vals)
+
+
+def ob_classical_dispatch(A, B, X, Y):
+    """classical_value's enumeration glue for games with hundreds / thousands of strategies on the enumerated side
+    (the multiprocessing branch above 1000): process_iteration is an uninterpreted function i -> t_i (one solver real per
+    strategy index), the pool is an in-process stub, and the result must be the maximum of t over EVERY index 0..N-1."""
+    swap = A ** X < B ** Y
+    base, digits = (A, X) if swap else (B, Y)
+    N = base ** digits
+    cfg = {"alice_out": A, "bob_out": B, "alice_in": X, "bob_in": Y, "enumerated_strategies": N,
+           "branch": "multiprocessing pool" if N > 1000 else "single core"}
+
+    def build(b):
+        return {"t": np.array([b.real(f"t{k}") for k in range(N)], dtype=object)}
+
+    def call(i):
+        t = i["t"]
+        symbolic = any(not isinstance(v, (int, float, np.floating, F)) for v in t)
+        if symbolic or N <= 1000:
+            seen = []
+
+            def stub(k, nbo, nbi, pm, nao, nai):
+                if (int(nbo), int(nbi), int(nao), int(nai)) != (base, digits, B if swap else A, Y if swap else X) or \
+                        tuple(np.shape(pm)) != ((B, Y, A, X) if swap else (A, X, B, Y)):
+                    raise ValueError("process_iteration called with the wrong alphabet sizes")
+                seen.append(int(k))
+                return t[int(k)]
+            old = NonlocalGame.__dict__["process_iteration"]
+            NonlocalGame.process_iteration = staticmethod(stub)
+            try:
+                val = NonlocalGame(np.full((X, Y), 1.0 / (X * Y)), np.ones((A, B, X, Y))).classical_value()
+            finally:
+                NonlocalGame.process_iteration = old
+            return val.force() if isinstance(val, _LazyMax) else val
+        # numeric replay through the public API with nothing stubbed: the game in which the enumerated player's strategy
+        # number argmax(t) is the unique perfect strategy; the real value is 1 iff that strategy was evaluated
+        import multiprocessing
+        multiprocessing.current_process()._config["daemon"] = False      # allow the code's own Pool inside a check worker
+        k = int(np.argmax([float(v) for v in t]))
+        dg = [(k // base ** (digits - 1 - j)) % base for j in range(digits)]
+        V = np.zeros((A, B, X, Y))
+        for q in range(digits):
+            if swap:
+                V[dg[q], :, q, :] = 1
+            else:
+                V[:, dg[q], :, q] = 1
+        val = NonlocalGame(np.full((X, Y), 1.0 / (X * Y)), V).classical_value()
+        tmax = max(float(v) for v in t)
+        return tmax if abs(val - 1) < 1e-9 else tmax - (1 - val) - 1.0
+
+    def post(res, exp, i):
+        t = list(i["t"])
+        if isinstance(res, (float, int, np.floating)):
+            return abs(float(res) - max(float(v) for v in t)) < 1e-9
+        return And(*[lift(res) >= v for v in t]) & Or(*[lift(res).eq_solver(v) for v in t])
+    mod = "toqito.nonlocal_games.nonlocal_game"
+    return Obligation("classical_value.large_game_enumeration_reaches_every_strategy_of_the_enumerated_player", cfg, build, call, lambda i: None,
+                      post=post, objzeros=(NG,), extra_patch={mod: {"multiprocessing": _InlineMP, "max": _solver_max}},
+                      neg_control=False, tv=True, max_paths=8, weight=max(30, N // 20),
+                      functions=["NonlocalGame.classical_value (dispatch of strategy indices; process_iteration as uninterpreted i -> t_i; "
+                                 "multiprocessing.Pool as in-process stub)"])
+
+
 def ob_product(A, B, X, Y):
     cfg = {"alice_out": A, "bob_out": B, "alice_in": X, "bob_in": Y, "reps": 2}
 
@@ -681,6 +802,8 @@ def obligations(tier):
         for X, Y in itertools.product([1, 2, 3], [1, 2, 3]):
             if min(A ** X, B ** Y) <= 9 and A ** X * B ** Y <= (729 if T else 108) and X * Y <= 6:
                 obs.append(ob_classical(A, B, X, Y))
+    for sh in [(2, 2, 10, 10), (6, 6, 4, 4), (6, 3, 4, 7), (10, 10, 3, 3), (2, 2, 3, 9), (3, 2, 7, 11)] + ([(3, 6, 7, 4), (2, 2, 11, 11), (4, 5, 5, 5), (7, 2, 4, 12)] if T else []):
+        obs.append(ob_classical_dispatch(*sh))
     for sh in [(2, 2, 2, 2), (2, 3, 1, 2), (3, 2, 2, 1)] + ([(2, 3, 2, 2)] if T else []):
         obs.append(ob_product(*sh))
     obs.append(BcsEnumeration(2, 2))
